@@ -115,7 +115,7 @@ func runFaultCase(c *Case, m *Monitor) faultRun {
 		auth := d.Auth
 		conn := devsim.NewConn(dev, faultCfg(fc, auth))
 		defer conn.Abandon()
-		ac := &devsim.AuthConn{Conn: conn, SSH: &transport.SSHArgs{PrivateKeyPassPhrase: d.Passphrase}}
+		ac := &devsim.AuthConn{Conn: conn, SSH: d.SSHArgs()}
 		s, err := c10.NewSession(&d, ac, logOpts)
 		if err != nil {
 			fr.s.outcome = "constructor:" + err.Error()
